@@ -20,6 +20,7 @@ func cmdSweep(args []string) {
 	filter := fs.String("pkg", "", "package path substring")
 	solve := fs.Bool("solve", false, "discharge the obligations too")
 	timeout := fs.Int("t", 5, "timeout")
+	roots := fs.String("roots", "", "comma-separated root functions: sweep their call tree only")
 	fs.Parse(args)
 	eng, err := LoadEngine(*repo)
 	if err != nil {
@@ -27,7 +28,21 @@ func cmdSweep(args []string) {
 		os.Exit(2)
 	}
 	var fns []*ssa.Function
+	inTree := map[*ssa.Function]bool{}
+	if *roots != "" {
+		for _, r := range splitList(*roots) {
+			fn, _, err := eng.LookupFunc(r)
+			if err != nil {
+				fmt.Println("ENGINE-ERROR:", err)
+				os.Exit(2)
+			}
+			eng.callTree(fn, inTree)
+		}
+	}
 	for fn := range ssautil.AllFunctions(eng.prog) {
+		if *roots != "" && !inTree[fn] {
+			continue
+		}
 		if !eng.inRepo(fn) || fn.Blocks == nil || fn.Synthetic != "" {
 			continue
 		}
